@@ -14,8 +14,10 @@
                           map (fun idx => elem (V (ravel (ext_of mask sh) (ext_of mask idx))) (int_of mask idx)) (all_indices sh)
      body_arity body      the oracle returns one value per output name (see the comment at its definition) *)
 From Verif Require Import Base.Prelude Base.Index Base.NdArr Model.MapSpec Model.MapSpecSpec Model.MapRun Model.MapDenote
-  Model.SymBody Proofs.IndexFacts Proofs.PlaceFacts Proofs.SelectFacts Proofs.MapRunFacts Proofs.C01Example Proofs.C01Corr.
-From Verif Require Corr.Run_C01.
+  Model.SymBody Model.AutoGen Model.AutoGenSpec
+  Proofs.IndexFacts Proofs.PlaceFacts Proofs.SelectFacts Proofs.MapRunFacts Proofs.C01Example Proofs.C01Corr
+  Proofs.AutoGenFacts Proofs.C01xCorr Proofs.C01xExample.
+From Verif Require Corr.Run_C01 Corr.Run_C01x Model.XrLabelSpec.
 
 (* 1. placement: folding `place` (= _set_output through flat indices) over all linear indices fills the result
       array with exactly the target; in particular every position is written and no write lands elsewhere *)
@@ -140,3 +142,89 @@ Example C01_example_request :
                 (match denote_run sym_body ex_p ex_inputs [] with Ok d => Some d | Err _ => None end)
      = Some [(s "y", Ok [2; 3]); (s "z", Ok [3; 2])].
 Proof. exact ex_request_hyps. Qed.
+
+(* ====================================================================================================
+   AUTOGENERATED MapSpecs (Model/AutoGen.v: Pipeline.__init__/add/_validate_mapspec/_autogen_mapspec_axes with
+   find_non_root_axes, replace_none_in_axes, create_missing_mapspecs, as repaired by d490e73 348bc4e 776ea17 1a2c41d).
+   `construct user` maps the USER-LEVEL function list (producers of arrays may carry no MapSpec although their outputs
+   are consumed with axes) to the EFFECTIVE list that Pipeline.map runs.
+   ==================================================================================================== *)
+
+(* 7. whenever construction succeeds: only MapSpecs differ; a MapSpec the user wrote is untouched; a function without
+      MapSpec gets one exactly when one of its outputs is an indexed input of some MapSpec, and that MapSpec is
+      `generated_ok` (no inputs, well formed in the sense of C08, names exactly the outputs, same axes for all outputs);
+      all MapSpecs of the effective list name the axes of every array consistently (XrLabelSpec.consistent is the
+      hypothesis `validate_consistent_axes` of C19) - in particular the generated axes agree with every consumer *)
+Theorem C01_autogen_completion : forall user eff,
+  construct user = Ok eff ->
+  length eff = length user
+  /\ Forall2 (fun f e => e = set_spec f (fspec e)
+                         /\ (forall m, fspec f = Some m -> e = f)
+                         /\ (fspec f = None ->
+                             if existsb (consumed user) (fouts f)
+                             then exists g, fspec e = Some g /\ generated_ok f g = true
+                             else e = f)) user eff
+  /\ XrLabelSpec.consistent (all_aspecs (map fspec eff)) = true.
+Proof. exact construct_readable. Qed.
+Print Assumptions C01_autogen_completion.
+
+Theorem C01_generated_ok_meaning : forall f g,
+  generated_ok f g = true ->
+  ins g = [] /\ wf_decl g = true /\ map aname (outs g) = fouts f
+  /\ forall o o', In o (outs g) -> In o' (outs g) -> axes o = axes o'.
+Proof. exact generated_ok_meaning. Qed.
+Print Assumptions C01_generated_ok_meaning.
+
+(* the same, as the executable statement that the harness applies to the MapSpecs reported by the implementation *)
+Theorem C01_autogen_completion_ok : forall user eff,
+  construct user = Ok eff -> completion_ok user (map fspec eff) = true.
+Proof. exact construct_completion. Qed.
+Print Assumptions C01_autogen_completion_ok.
+
+(* 8. end to end: the run of the effective list computed by the model of the construction denotes (theorem 5) *)
+Corollary C01_autogen_map_run_denotes : forall body, body_arity body ->
+  forall userfs eff user inputs d,
+  construct userfs = Ok eff ->
+  request_ok eff inputs = true -> denote_run body eff inputs user = Ok d ->
+  exists st, map_run body eff inputs user = Ok st
+             /\ map (fun x => (fst (fst x), snd (fst x))) (r_out st) = d_out d
+             /\ map (fun x => (fst (fst x), snd x)) (r_out st) = d_out d.
+Proof. intros body Ha userfs eff user inputs d _. now apply map_run_denotes. Qed.
+Print Assumptions C01_autogen_map_run_denotes.
+
+(* non-vacuity: tuple-output producer without MapSpec, consumed as a[:, j] and b[i, :] by two functions, handed to
+   Pipeline in the order h1, g, h2: the effective MapSpec of g is  ... -> a[i, j], b[i, j]  and the request is valid *)
+Example C01_example_autogen :
+  completable exa_user = true
+  /\ option_map (map (fun f => option_map print (fspec f))) (match construct exa_user with Ok e => Some e | Err _ => None end)
+     = Some [Some (s "a[:, j] -> r[j]"); Some (s "... -> a[i, j], b[i, j]"); Some (s "b[i, :], x[i] -> q[i]")]
+  /\ match construct exa_user with
+     | Ok eff => request_ok (exa_run_order eff) exa_inputs = true
+                 /\ option_map (fun d => map (fun x => (fst x, val_shape (snd x))) (d_out d))
+                      (match denote_run sym_body (exa_run_order eff) exa_inputs exa_internal with Ok d => Some d | Err _ => None end)
+                    = Some [(s "a", Ok [2; 2]); (s "b", Ok [2; 2]); (s "r", Ok [2]); (s "q", Ok [2])]
+     | Err _ => False
+     end.
+Proof. exact exa_hyps. Qed.
+
+(* Mapped functions with ZERO mapped axes ( x[:], w[:, :] -> y[j, k] ): theorems 4 and 5 cover them as they stand - the
+   hypotheses do not exclude an empty external shape (ext_of mask sh = [], prod [] = 1 call) - shown by an instance *)
+Example C01_example_zero_mapped_axes :
+  wf_decl exz_ms = true /\ nodup_str (map aname (ins exz_ms)) = true /\ nodup_str (output_indices exz_ms) = true
+  /\ 0 < length (fouts exz_f) /\ length [false; false] = length [3; 2]
+  /\ length (ext_of [false; false] [3; 2]) = length (external_indices exz_ms)
+  /\ forallb (fun d => 0 <? d) [3; 2] = true
+  /\ shape exz_ms [(s "x", [2]); (s "w", [1; 2])] exz_internal = Ok ([3; 2], [false; false])
+  /\ prod (ext_of [false; false] [3; 2]) = 1
+  /\ request_ok [exz_f] exz_inputs = true
+  /\ option_map (fun d => map (fun x => (fst x, val_shape (snd x))) (d_out d))
+       (match denote_run sym_body [exz_f] exz_inputs exz_internal with Ok d => Some d | Err _ => None end)
+     = Some [(s "y", Ok [3; 2])]
+  /\ option_map r_calls (match map_run sym_body [exz_f] exz_inputs exz_internal with Ok st => Some st | Err _ => None end)
+     = Some 1.
+Proof. exact exz_hyps. Qed.
+
+(* 9. link to the differential check for the extended case type (explicit requests AND user-level lists) *)
+Theorem C01_model_meets_spec_x : forall c, Run_C01x.spec_ok c (Run_C01x.run c) = true.
+Proof. exact model_meets_spec_x. Qed.
+Print Assumptions C01_model_meets_spec_x.
